@@ -368,8 +368,84 @@ def setup():
 
 
 def selftest():
-    print("selftest not implemented yet")
-    return 0
+    """Demonstrates the binding (DESIGN.md section 4.5): corrupted traces must be rejected by the monitors that own the corrupted
+    fact, and the design check must fail when a repair constant is flipped back."""
+    import random
+    build_harness()
+    rnd = random.Random(7)
+    f = os.path.join(WORK, "self.jsonl")
+    t = os.path.join(WORK, "self.ndjson")
+    gen_scenarios("WF", 40, 4711, f, steps=6)
+    run_scenarios(f, t)
+    base = validate_trace(t, os.path.join(WORK, "self.json"), "self")
+    ok = True
+    print("unmodified trace: %d events, %d violations" % (base["events"], len(base["viol"])))
+    ok &= len(base["viol"]) == 0
+    lines = [l for l in open(t).read().split("\n") if l.strip()]
+
+    def idx(pred):
+        c = [i for i, l in enumerate(lines) if pred(json.loads(l))]
+        return rnd.choice(c) if c else None
+
+    def mutate(name, fn, expect):
+        nonlocal ok
+        ls = list(lines)
+        if fn(ls) is False:
+            print("%-34s (no candidate event in this trace)" % name)
+            return
+        p = os.path.join(WORK, "self_mut.ndjson")
+        open(p, "w").write("\n".join(ls) + "\n")
+        try:
+            r = validate_trace(p, os.path.join(WORK, "self_mut.json"), "selfm")
+            got = sorted(set("%s/%s" % (v[3], v[4]) for v in r["viol"]))
+        except ToolError as e:
+            got = ["TOOL-ERROR"]
+        hit = any(any(g.startswith(x) for g in got) for x in expect)
+        ok &= hit
+        print("%-34s expected one of %s -> %s %s" % (name, expect, "REJECTED" if hit else "MISSED", got[:5]))
+
+    def set_field(pred, field, fn):
+        def go(ls):
+            i = idx(pred)
+            if i is None:
+                return False
+            e = json.loads(ls[i]); e[field] = fn(e[field]); ls[i] = json.dumps(e)
+        return go
+
+    def delete(pred):
+        def go(ls):
+            i = idx(pred)
+            if i is None:
+                return False
+            del ls[i]
+        return go
+
+    mutate("returned output changed", set_field(lambda e: e["ev"] == "root_ret", "o", lambda o: (o + 1) % 4), ["C01/output", "C03/output", "C17/require_end_value"])
+    mutate("execute_start dropped", delete(lambda e: e["ev"] == "exec_start"), ["C17/", "C02/", "C04/"])
+    mutate("read stamp changed", set_field(lambda e: e["ev"] == "read_end", "s", lambda s: s + 1), ["C09/read_stamp"])
+    mutate("write stamp changed", set_field(lambda e: e["ev"] == "write_end", "s", lambda s: s + 1), ["C09/write_stamp"])
+    mutate("resource mutation dropped", delete(lambda e: e["ev"] == "res_set"), ["INTEGRITY/", "C09/"])
+    mutate("check result flipped", set_field(lambda e: e["ev"] == "check_res_end" and e["res"] == "ok", "res", lambda r: "inc"), ["C09/resource_check_result"])
+    mutate("schedule event dropped", delete(lambda e: e["ev"] == "schedule"), ["C09/inconsistent_not_scheduled", "C04/"])
+    mutate("require_end output changed", set_field(lambda e: e["ev"] == "require_end" and e["c"] != "any", "o", lambda o: (o + 1) % 4), ["C17/", "C09/require_stamp"])
+    mutate("reported error count changed", set_field(lambda e: e["ev"] == "sess_end", "errs", lambda n: n + 1), ["C18/reported_error_count"])
+    mutate("composite children differ", set_field(lambda e: e["ev"] == "sess_end", "trk_same", lambda b: False), ["C17/composite_children_differ"])
+    # the design check reacts to the repair constants
+    r = run_mc("td_twice", {"EdgeReinsertMovesToBack": True}, timeout=600)
+    hit = r["violated"] == "NoViolation" and "validation_order" in (r.get("viol") or "")
+    ok &= hit
+    print("%-34s -> %s (%s)" % ("Pie.tla with defect F1 modelled", "VIOLATION FOUND" if hit else "MISSED", r.get("viol")))
+    r = run_mc("abort_2t1r", {"CheckLeftoverOfAborted": True}, timeout=600)
+    hit = r["violated"] == "NoViolation"
+    ok &= hit
+    print("%-34s -> %s (%s)" % ("Pie.tla with defect F2 modelled", "VIOLATION FOUND" if hit else "MISSED", r.get("viol")))
+    r = run_dagpk(4, 7, [1, 2], reinsert=True, tag="self")
+    hit = r["violated"] == "C11_Order"
+    ok &= hit
+    print("%-34s -> %s (%s)" % ("DagPK.tla with defect F1 modelled", "VIOLATION FOUND" if hit else "MISSED", r["violated"]))
+    print("selftest " + ("ok" if ok else "FAILED"))
+    return 0 if ok else 2
+
 
 
 ALL_CHECKS = set(PIE_PROPS.keys())
